@@ -25,6 +25,8 @@ HOOKS = {
     "add_only": True,
 }
 ENGINES = [
+    {"name": "sanitizer-engines", "path": "tools/sanit.py", "serves_properties": ["C05", "C18"],
+     "kind_free_text": "rebuilds the avs workloads (harness/src/sanit_main.rs) with the nightly toolchain and runs them under AddressSanitizer, ThreadSanitizer (-Zbuild-std), Miri and valgrind memcheck; tool reports become violations with the report as replay, tool failures are recorded as unavailable"},
     {"name": "av-harness", "path": "harness/", "serves_properties": [f"C{i:02d}" for i in range(1, 21)],
      "kind_free_text": "Rust harness linking the real altrios-core: seeded generators, online adversarial drivers, reference models and per-step invariant monitors; worker subprocesses sharded over 16 cores by ./check"},
 ]
@@ -164,15 +166,32 @@ PROPS.update({
                        "thorough": {"distinct_nontrivial": 800, "obs.dispatch_ok": 6000}}},
     "C05": {"level": "exploration", "owns_aborts": True,
             "variants": {"quick": ["rel", "chk"], "thorough": ["rel", "chk"]},
-            "technique": "runtime monitor on run_dispatch results and the hook's final snapshot (route validity, free-running lower bound per leg, iteration bound) in two builds: as shipped and with debug-assertions/overflow-checks for altrios-core (ub_checks on the get_unchecked sentinel searches); thorough tier adds Miri, AddressSanitizer and valgrind memcheck runs of the same dispatch workload",
-            "level_text": "Every returned plan is checked for completeness and validity against the network and the train's own estimated-time network; panics/aborts in either build are violations; bounded progress (outer iterations <= 200 x dispatch nodes; observed maximum recorded). Memory safety is 'no report on the executions observed' from ub_checks (all runs), Miri / ASan / memcheck (thorough).",
+            "technique": "runtime monitor on run_dispatch results and the hook's final snapshot (route validity, free-running lower bound per leg, iteration bound) in two builds: as shipped and with debug-assertions/overflow-checks for altrios-core (ub_checks on the get_unchecked sentinel searches); valgrind memcheck on the shipped-profile binary (both tiers) and AddressSanitizer and Miri runs (thorough tier) of the same dispatch workload",
+            "level_text": "Every returned plan is checked for completeness and validity against the network and the train's own estimated-time network; panics/aborts in either build are violations; bounded progress decided on logical steps (advance attempts per outer iteration <= 20000, outer iterations <= 200 x dispatch nodes; observed maxima recorded). Memory safety is 'no report on the executions observed' from ub_checks and valgrind memcheck (all runs) and ASan / Miri (thorough); the evidence counts how often each of the five unsafe blocks was executed under each engine.",
             "level_note": DISP_NOTE + " Unbounded termination is restated as bounded progress. A clean sanitizer run is not a proof of memory safety.",
             "floors": {"quick": {"distinct_nontrivial": 20, "obs.dispatch_ok": 300, "obs.legs_checked": 20000, "obs.rewinds": 20, "obs.trains_rerouted_off_the_shortest_route": 5},
                        "thorough": {"distinct_nontrivial": 800, "obs.dispatch_ok": 12000}}},
 })
 
+def _eng(name):
+    def run(here, prop, tier, seed):
+        import importlib.util, os
+        spec = importlib.util.spec_from_file_location("sanit", os.path.join(here, "tools", "sanit.py"))
+        mod = importlib.util.module_from_spec(spec)
+        spec.loader.exec_module(mod)
+        return mod.ENGINES[name](here, prop, tier, seed)
+    run.__name__ = name
+    return run
+
+
+PROPS["C05"]["engines"] = {"quick": [_eng("memcheck-dispatch")], "thorough": [_eng("memcheck-dispatch"), _eng("asan-dispatch"), _eng("miri-dispatch")]}
+PROPS["C05"]["floors"]["quick"].update({"obs.unsafe_block_executions.free_path::calc_idx_sentinels": 100, "obs.unsafe_block_executions.free_path::add_blocking_trains": 100,
+                                        "obs.unsafe_block_executions.free_path::find_train_intersect::single": 50, "obs.unsafe_block_executions.free_path::find_train_intersect::range": 20,
+                                        "obs.unsafe_block_executions.free_path::find_train_intersect::check": 20})
+
 PROPS["C18"] = {"level": "exploration", "process_rounds": {"quick": 4, "thorough": 6},
-    "technique": "runtime monitor: byte-wise comparison of output digests of every pipeline across repeated executions in one process and across several fresh processes (different hash-map seeds); element-wise comparison of LocomotiveSimulationVec::walk(parallel) under rayon pools of 1..16 threads with each element's own serial walk; thorough tier adds ThreadSanitizer and Miri (-Zmiri-many-seeds) runs of the batch walk",
+    "engines": {"thorough": [_eng("tsan-batch"), _eng("asan-batch"), _eng("miri-batch")]},
+    "technique": "runtime monitor: byte-wise comparison of output digests of every pipeline across repeated executions in one process and across several fresh processes (different hash-map seeds); element-wise comparison of LocomotiveSimulationVec::walk(parallel) under rayon pools of 1..16 threads with each element's own serial walk; thorough tier adds ThreadSanitizer (-Zbuild-std), AddressSanitizer and Miri (Tree Borrows, several seeds and pool sizes) runs of the batch walk",
     "level_text": "Outputs of thousands of generated simulations, estimated-time constructions and dispatches are compared between repeated and fresh-process executions, and every element of generated batches between parallel and serial walks for eight pool sizes; held on all observed executions. Scheduling coverage is what the pool sizes, repetitions, TSan's happens-before analysis and Miri's seeds provide; rayon interleavings cannot be enumerated.",
     "level_note": "Trusted: YAML serialization of the result objects as their identity (result types contain no hash maps); FNV/SplitMix digest collisions are negligible (length is part of the digest).",
     "floors": {"quick": {"distinct_nontrivial": 300, "obs.digests_compared_across_processes": 3000, "obs.parallel_batch_walks": 1000, "obs.elements_compared": 50000, "obs.batches_with_failing_elements": 20, "obs.pipeline.make_est_times": 50, "obs.pipeline.run_dispatch": 30},
